@@ -228,6 +228,11 @@ func c14Seeds(rng *rand.Rand) map[string][][]byte {
 		l.AppendBytes(util.EFIGUID{Data1: 1}, bytes.Repeat([]byte{7}, 32))
 		add("sigdb", append(l.Bytes(), signature.NewSignatureList(t).Bytes()...))
 	}
+	// load options whose nodes are legal but minimal: a file path node with an empty name, a
+	// hard-drive node without signature, an option with an empty description
+	add("boot", []byte{1, 0, 0, 0, 10, 0, 'x', 0, 0, 0, 4, 4, 6, 0, 0, 0, 0x7f, 0xff, 4, 0})
+	add("boot", []byte{1, 0, 0, 0, 8, 0, 0, 0, 4, 4, 4, 0, 0x7f, 0xff, 4, 0})
+	add("boot", append(append([]byte{1, 0, 0, 0, 46, 0, 0, 0, 4, 1, 42, 0}, make([]byte, 38)...), 0x7f, 0xff, 4, 0))
 	add("utf16", util.MarshalUtf16Var("Linux Boot Manager"))
 	add("utf16", util.MarshalUtf16Var("\U0001F600 x"))
 	add("guid", []byte("8be4df61-93ca-11d2-aa0d-00e098032b8c"))
